@@ -118,6 +118,9 @@ pub struct Scenario {
     /// payload for families with their own executor (table histories, generator soak)
     #[serde(default)]
     pub blob: Vec<u64>,
+    /// byte strings for decode-level families
+    #[serde(default)]
+    pub inputs: Vec<Vec<u8>>,
 }
 
 impl Scenario {
@@ -133,6 +136,7 @@ impl Scenario {
             end_ms: 60_000,
             params: BTreeMap::new(),
             blob: vec![],
+            inputs: vec![],
         }
     }
     pub fn at(&mut self, t: Ms, op: Op) -> usize {
@@ -588,6 +592,12 @@ pub async fn execute(sc: &Scenario) -> RunLog {
 /// Run a scenario on a fresh OS thread with its own seeded runtime: the result depends on the
 /// scenario value only.
 pub fn run_scenario(sc: &Scenario) -> Result<RunLog, String> {
+    run_scenario_with(sc, false)
+}
+
+/// As `run_scenario`; with `monitor_alloc` the largest single allocation request made on the
+/// simulation thread is reported as stats["alloc_peak"].
+pub fn run_scenario_with(sc: &Scenario, monitor_alloc: bool) -> Result<RunLog, String> {
     let sc = sc.clone();
     let h = std::thread::Builder::new()
         .name("sim".into())
@@ -602,8 +612,15 @@ pub fn run_scenario(sc: &Scenario) -> Result<RunLog, String> {
                 .rng_seed(tokio::runtime::RngSeed::from_bytes(&seed_bytes))
                 .build()
                 .expect("runtime");
-            let out = rt.block_on(execute(&sc));
+            if monitor_alloc {
+                crate::alloc::monitor(true);
+            }
+            let mut out = rt.block_on(execute(&sc));
             drop(rt);
+            if monitor_alloc {
+                out.stats.insert("alloc_peak".into(), crate::alloc::peak() as u64);
+                crate::alloc::monitor(false);
+            }
             out
         })
         .map_err(|e| format!("spawn: {e}"))?;
